@@ -92,6 +92,21 @@ func vfhC16Force() {
 	vfAssert(vfCoordsForced(c, gc0, target), "Point: XY and kept dimensions bit-identical, added ones zero")
 	vfAssert(NewEmptyPoint(ct).ForceCoordinatesType(target).CoordinatesType() == target, "empty Point")
 	vfAssert(p.Force2D().CoordinatesType() == DimXY, "Force2D")
+	// a dropped dimension is gone for good: forcing on to a third type adds zeros,
+	// not the values dropped before (Points, and Points inside a MultiPoint)
+	third := vfCT("third")
+	vis := Coordinates{XY: c.XY, Type: target}
+	if target.Is3D() && ct.Is3D() {
+		vis.Z = c.Z
+	}
+	if target.IsMeasured() && ct.IsMeasured() {
+		vis.M = c.M
+	}
+	gc1, ok := fp.ForceCoordinatesType(third).Coordinates()
+	vfAssert(ok && vfCoordsForced(vis, gc1, third), "Point forced twice: what the first step dropped comes back as zero")
+	mp2 := NewMultiPoint([]Point{p}).ForceCoordinatesType(target).ForceCoordinatesType(third)
+	gc2, ok := mp2.PointN(0).Coordinates()
+	vfAssert(ok && vfCoordsForced(vis, gc2, third), "MultiPoint member forced twice")
 
 	ls := vfLineF("l", 2, ct)
 	fl := ls.ForceCoordinatesType(target)
